@@ -593,8 +593,14 @@ def schedule(rec, ts, nthreads, per_thread, prob, with_grammar_thread):
             t.base(call)
             plan_.append((t, call))
         plans.append(plan_)
+    if with_grammar_thread:
+        for t in ts[:2]:
+            for k in range(1, 13):
+                for call in t.calls[k % 5::9][:4]:
+                    t.base(call)
     inj = YieldInjector([t.g for t in ts], prob, rec.seed + nthreads)
     results = [[] for _ in range(nthreads)]
+    built_results = []
     errors = []
     barrier = threading.Barrier(nthreads + (1 if with_grammar_thread else 0))
     stop_flag = {'stop': False}
@@ -618,8 +624,15 @@ def schedule(rec, ts, nthreads, per_thread, prob, with_grammar_thread):
                 k += 1
                 observe.compile_grammar('grammar %s\nstart = "a" | "b"\nignore " "' % base_name)
                 observe.compile_grammar('grammar %s_x extends %s\nstart = "c" | super.start' % (base_name, base_name))
-                observe.compile_grammar(HOOKED)
-                observe.compile_grammar(MEMO_HEAVY)
+                for t in ts[:2]:
+                    # a module built while others parse (and while other grammars are being built)
+                    # must answer like one built in isolation
+                    r = observe.compile_grammar(t.desc)
+                    if r[0] != 'ok':
+                        built_results.append((t, None, ('compile', r)))
+                        continue
+                    for call in t.calls[k % 5::9][:4]:
+                        built_results.append((t, call, outcome(r[1], call)))
                 rec.count('grammars_built_concurrently', 4)
             for n in (base_name, base_name + '_x'):
                 sys.modules.pop(n, None)
@@ -651,6 +664,13 @@ def schedule(rec, ts, nthreads, per_thread, prob, with_grammar_thread):
     rec.count('distinct_schedule_digests_candidates')
     for e in errors:
         rec.violation('schedule:thread-error', 'worker thread died', dict(kind='c18', mode='schedule'), 'no error', e)
+    for t, call, got in built_results:
+        if call is None:
+            rec.violation('concurrent-build:grammar-error', 'Grammar() while other threads parse', dict(kind='c18', mode='concurrent-build', target=t.name),
+                          'module', got)
+            continue
+        rec.count('concurrently_built_module_calls')
+        compare(rec, t, call, got, 'concurrent-build', threads=nthreads)
     for i in range(nthreads):
         for (t, call), got in zip(plans[i], results[i]):
             rec.count('schedule_calls')
